@@ -10,13 +10,14 @@ SHAPE_OPS = {
     "store1": ["set", "add", "replace", "append", "prepend", "cas"],
     "store2": ["set_many"],
     "fetch": ["get", "gets", "get_many", "gets_many", "gat", "gats", "stats"],
-    "misc1": ["delete", "touch", "flush_all", "incr", "decr"],
+    "misc1": ["delete", "touch", "flush_all"],
+    "count1": ["incr", "decr"],
     "misc2": ["delete_many"],
     "quit": ["quit"],
 }
 
 
-def tlc_run(rep, tier, interrupts, fixed=True):
+def tlc_run(rep, tier, interrupts, fixed=True, pooled=False, idle=0):
     maxcalls = 2 if tier == "quick" else 3
     cfg = f"""SPECIFICATION Spec
 CONSTANTS
@@ -24,6 +25,8 @@ CONSTANTS
   Export = TRUE
   Interrupts_On = {'TRUE' if interrupts else 'FALSE'}
   Fixed = {'TRUE' if fixed else 'FALSE'}
+  Pooled = {'TRUE' if pooled else 'FALSE'}
+  Idle = {idle}
 VIEW view
 INVARIANT {'NoC01' if interrupts else 'MonitorOK'}
 CHECK_DEADLOCK FALSE
@@ -37,18 +40,21 @@ CHECK_DEADLOCK FALSE
     return r
 
 
-def concretise(prog, n, kinds):
+def concretise(prog, n, kinds, idle=0):
     """model program -> (cfg, steps, expected per-call events)"""
     c = prog["cfg"]
     kind = kinds[n % len(kinds)]
     cfg = L.Cfg(kind=kind, tls=c["tls"], naddr=max(1, c["naddr"]), unix=(c["naddr"] == 0), nodelay=c["nodelay"],
-                ignore_exc=c["ignore_exc"], default_noreply=(n % 2 == 0))
+                ignore_exc=c["ignore_exc"], default_noreply=(n % 2 == 0), idle=idle)
     steps, exp = [], []
     for i, call in enumerate(prog["calls"]):
+        if call["shape"] == "tick":
+            steps.append(("tick", 1))
+            continue
         ops = [o for o in SHAPE_OPS[call["shape"]] if L.has_op(kind, o)]
         op = ops[(n + i) % len(ops)]
         nr = None
-        if call["shape"] in ("store1", "store2", "misc1", "misc2"):
+        if call["shape"] in ("store1", "store2", "misc1", "misc2", "count1"):
             nr = bool(call["nr"])
         f = call["fault"]
         plan = None
@@ -76,8 +82,8 @@ def per_call_events(ev):
     return out
 
 
-def design_and_replay(rep, tier, prop, relevant, interrupts=False, kinds=None):
-    r = tlc_run(rep, tier, interrupts)
+def design_and_replay(rep, tier, prop, relevant, interrupts=False, kinds=None, pooled=False, idle=0):
+    r = tlc_run(rep, tier, interrupts, pooled=pooled, idle=idle)
     if not r.ok:
         rep.violation(f"{prop}/model/" + ",".join(r.invariants_violated),
                       "the as-coded model spec/Conn.tla violates the contract: " + ",".join(r.invariants_violated),
@@ -96,7 +102,7 @@ def design_and_replay(rep, tier, prop, relevant, interrupts=False, kinds=None):
         for n, p in enumerate(progs):
             if (n + common.seed()) % stride:
                 continue
-            cfg, steps, exp = concretise(p, n, kinds)
+            cfg, steps, exp = concretise(p, n, kinds, idle)
             traces.append(L.run_program(cfg, steps, miss=L.miss_result(cfg) if cfg.ignore_exc else None))
             expected.append(exp)
     finally:
@@ -105,8 +111,8 @@ def design_and_replay(rep, tier, prop, relevant, interrupts=False, kinds=None):
     rep.set("model_programs_replayed", len(traces))
     ndrift = 0
     for i, t in enumerate(traces):
-        if i not in acc or t["h"]["kind"] not in ("client", "pooled"):
-            continue      # the model describes Client; HashClient adds failover behaviour on top
+        if i not in acc or t["h"]["kind"] != ("pooled" if pooled else "client"):
+            continue      # the model describes Client (or, with Pooled, a Client inside a pool); other stacks add behaviour on top
         real = per_call_events(t["ev"])[:-1]     # drop the final close() call
         for (outcome, evs), rl in zip(expected[i], real):
             if [tuple(x) for x in evs] != rl:
